@@ -60,7 +60,7 @@ def history(rnd, rep):
         elif r < 0.75:
             name, ar = rnd.choice(NAMES)
             rows = [(0, [[Sym('a'), '%spy%d' % (tag, k)]] + [[Sym('a'), 'x']] * (ar - 1) if ar else []) for k in range(rnd.randint(1, 2))]
-            style = rnd.choice(['explicit', 'inferred', 'variadic', 'inferred-star'] if ar else ['explicit', 'inferred', 'variadic'])
+            style = rnd.choice(['explicit', 'inferred', 'variadic', 'inferred-star', 'inferred-default'] if ar else ['explicit', 'inferred', 'variadic'])
             ops.append(('regpy', name, None if style == 'variadic' else ar, rows if ar else [(0, [])], None, style, rnd.random() < 0.5))
         elif r < (0.8 if inflight else 0.9):
             name, ar = rnd.choice(NAMES)
